@@ -57,8 +57,11 @@ def _(self, m, cn_solution):
     # depth of a single gene copy: total depth (at least 1) / copy number; 0 where the structure has no copy
     if hasattr(m, "pos"):
         ensures(result == single_depth(self, cn_solution, m.pos, depth_at(self, m)))
+        ensures((result == 0) == (copies_at(cn_solution, m.pos) == 0), label="zero-iff-no-copy")
     else:
         ensures(result == single_depth(self, cn_solution, m, depth(self, m)))
+        ensures((result == 0) == (copies_at(cn_solution, m) == 0), label="zero-iff-no-copy")
+    ensures(result >= 0, label="nonneg")
     modifies()
 
 
